@@ -3,7 +3,7 @@ from __future__ import annotations
 
 import hashlib
 import logging
-import os
+import os, re
 import sys
 
 VERIF = os.path.dirname(os.path.dirname(os.path.abspath(__file__)))
@@ -38,6 +38,15 @@ def fp(obj) -> str:
     return hashlib.sha1(
         json.dumps(obj, sort_keys=True, default=repr).encode("utf-8", "surrogatepass")
     ).hexdigest()[:16]
+
+
+_LINE_SEPS = re.compile("[\n\r\x0b\x0c\x1c-\x1e\x85\u2028\u2029]")
+
+
+def has_include_line(text):
+    if "nclude" not in text.lower():
+        return False
+    return any(l.strip().lower().startswith("include") for l in _LINE_SEPS.split(text))
 
 
 class Workers:
@@ -92,7 +101,12 @@ class Workers:
         return self._validator
 
     # the reusable-instance code path named in the properties' observe_at
-    def loads(self, text, position=False, comments=False, expand=False):
+    def loads(self, text, position=False, comments=False, expand=None):
+        # expand=None: what a caller of the public API gets (expand_includes=True, the text goes through the
+        # INCLUDE pre-pass) whenever no line of the text could be taken for an INCLUDE directive; texts that
+        # carry INCLUDE lines as data are loaded with expand_includes=False (C15 owns their expansion)
+        if expand is None:
+            expand = not has_include_line(text)
         tree = self.parser(comments, expand).parse(text)
         return self.m2d(position, comments).transform(tree)
 
